@@ -2,6 +2,7 @@
 package c09
 
 import (
+	"github.com/apache/skywalking-banyandb/banyand/internal/verif/simknobs"
 	"fmt"
 	"sort"
 	"strings"
@@ -188,6 +189,9 @@ func genOrderQueries(tp *simcore.Tape, n int, orderTags [][2]string, tsOf []int6
 
 func runStream(e *simcore.Env, tp *simcore.Tape) {
 	synctest.Test(e.T, func(*testing.T) {
+		knobDesc, knobRestore := simknobs.Draw(tp, "stream")
+		defer knobRestore()
+		e.Event("%s", knobDesc)
 		s := wl.GenStreamSchema(tp, wl.SchemaOpts{MaxShards: 3})
 		repo := simmeta.New()
 		s.Install(repo)
@@ -333,6 +337,9 @@ func clipInts(v []int64) string {
 
 func runMeasure(e *simcore.Env, tp *simcore.Tape) {
 	synctest.Test(e.T, func(*testing.T) {
+		knobDesc, knobRestore := simknobs.Draw(tp, "measure")
+		defer knobRestore()
+		e.Event("%s", knobDesc)
 		s := wl.GenMeasureSchema(tp, wl.SchemaOpts{MaxShards: 3})
 		repo := simmeta.New()
 		s.Install(repo)
